@@ -109,9 +109,16 @@ let dispatch op a =
       (pr_outcome str_info m, spec)
   | "fill" ->
       let cnt = n_of_string (arg 0) and c = byte1 (arg 1) in
-      let k = int_of_n cnt in
-      let r = List.init k (fun _ -> c) in
-      (pr_outcome str_info (fill_model cnt c), if wf8s r then ok_str r else "THROW unicode_error")
+      (* counts the property's generator never uses (an allocation of 2^63 bytes or more): the Model's
+         word only; the Spec is not evaluated on them *)
+      if BZ.gt (bz_of_n cnt) (BZ.of_int 100_000_000) then
+        ((if BZ.geq (BZ.succ (bz_of_n cnt)) (BZ.shift_left BZ.one 63) then pr_outcome str_info (fill_model cnt c)
+          else "FAULT ModelTooLarge"), "=")
+      else begin
+        let k = int_of_n cnt in
+        let r = List.init k (fun _ -> c) in
+        (pr_outcome str_info (fill_model cnt c), if wf8s r then ok_str r else "THROW unicode_error")
+      end
   | _ -> failwith ("drv_slice: unknown op " ^ op)
 
 let () = run_main dispatch
